@@ -111,7 +111,9 @@ CHECKS.update({
                  "each ordering guard is shown load-bearing by a mutant configuration; recorded event streams of the real store are "
                  "validated by TLC against the same guards (SyncTrace: wal/ln/bbn/segments clean and directory synced before the meta "
                  "write, hash table clean before the WAL is truncated, meta durable and hash table clean in recovery); power-loss "
-                 "images (also after a crashed process was recovered) are reopened and judged like C03's.", "DESIGN.md 4/C04",
+                 "images (also after a crashed process was recovered) are reopened and judged like C03's; the histories include groups of "
+                 "keys that cross the page-elision threshold (a page stored for the first time with nodes the commit did not touch, "
+                 "whose WAL entry matters only when the hash-table writes are lost).", "DESIGN.md 4/C04, 11",
                  "TLA+ NomtSync model-checked with TLC incl. guard mutants; recorded I/O event streams validated by TLC (SyncTrace); "
                  "synthesised power-loss images reopened and validated by TLC against NomtApi"),
     "C14": _sync("fault_enumeration", "NomtSync!IoFail / FailureIsReported and NomtApi!CommitFails / PoisonedIsFrozen are model-checked; "
@@ -162,7 +164,10 @@ CHECKS.update({
                      "(also with hash tables barely larger than the page set) an independent decoder parses meta, free lists, branch and "
                      "leaf nodes, overflow chains and the hash table and checks key order, separator bounds, single use of every page, "
                      "probe reachability, every stored merkle node against the reference trie and elision consistency; ApiTrace requires "
-                     "the decoded map to equal the specification state and the structure to be well-formed in every state.",
+                     "the decoded map to equal the specification state and the structure to be well-formed in every state.  The histories "
+                     "include wide trees (thousands of leaves under several branch nodes, commits by 2-4 workers that erase key ranges "
+                     "next to ranges they rewrite) and, in the crash leg, recovered images of groups crossing the elision threshold.  "
+                     "Aba.tla states finding F24 at design level (counterexample under the by-value check, none under an epoch check).",
                 technique="TLA+ Alloc/Bitbox/NomtApi model-checked with TLC; independent on-disk decoder observations validated by TLC in "
                           "every trace state (ApiTrace)"),
     "C19": dict(level="model_checking", engine="tlc", design_ref="DESIGN.md 4/C19, 11", note=_API_NOTE,
